@@ -272,9 +272,10 @@ Proof.
 Qed.
 
 Lemma merge_names_In dirty b x :
-  In x (merge_names dirty b) <-> (In x dirty /\ ~ In x (b_del b)) \/ In x (map i_full (b_add b)).
+  In x (merge_names dirty b) <->
+  ((In x dirty \/ In x (map i_full (b_upd b))) /\ ~ In x (b_del b)) \/ In x (map i_full (b_add b)).
 Proof.
-  unfold merge_names. rewrite dedup_In, in_app_iff, filter_In. 
+  unfold merge_names. rewrite dedup_In, !in_app_iff, !filter_In.
   assert (He : negb (existsb (String.eqb x) (b_del b)) = true <-> ~ In x (b_del b)).
   { rewrite negb_true_iff. split.
     - intros Hf Hin. apply Bool.not_true_iff_false in Hf. apply Hf. apply existsb_exists.
@@ -291,6 +292,7 @@ Proof.
   intros x. rewrite !merge_names_In.
   pose proof (perm_same_set _ _ (bp_del b b' Hb) x) as H1.
   pose proof (perm_same_set _ _ (Permutation_map i_full (bp_add b b' Hb)) x) as H2.
+  pose proof (perm_same_set _ _ (Permutation_map i_full (bp_upd b b' Hb)) x) as H4.
   pose proof (Hd x) as H3. tauto.
 Qed.
 
